@@ -109,7 +109,11 @@ fn op_allowed<E: EndianParse, S: std::io::Read + std::io::Seek>(f: &elf::ElfStre
             }
         }
         Q::VerReq(_) | Q::VerDef(_) => {
-            // every section of the three version types and the string tables they link to
+            // no .gnu.version section: the query answers None and designates nothing; otherwise every section
+            // of the three version types and the string tables they link to
+            if !sh.iter().any(|h| h.sh_type == 0x6fff_ffff) {
+                return v;
+            }
             for h in sh.iter().filter(|h| matches!(h.sh_type, 0x6fff_fffd | 0x6fff_fffe | 0x6fff_ffff)) {
                 if let Some(r) = sec_range(h) {
                     v.push(r)
@@ -171,7 +175,8 @@ fn check(data_in: &[u8], mode: &'static str, note: &str, big_pad: bool, names: &
             big
         })
         .unwrap_or(false);
-    let reader = Reader::with(data.clone(), chunks.clone(), intr, vec![]);
+    let pos0 = stream::gen_initial_pos(&mut c, data.len());
+    let reader = Reader::with(data.clone(), chunks.clone(), intr, vec![]).at_position(pos0);
     alloc::open();
     let rs = guard(|| open_stream_as(AnyEndian::Little, reader.clone()));
     let a = alloc::close();
